@@ -180,6 +180,58 @@ def pipe(prop, tier, seed):
     return run_corruptions("TracePipe", trace, cases.get(prop, cases["C04"]))
 
 
+# --------------------------------------------------------------------------- local-search candidates (C11)
+def lscand(prop, tier, seed):
+    import props
+    info = props.REGISTRY["C11"].corpus(tier, seed)
+    trace = common.read_ndjson(info["chunks"][0])
+
+    def enum_with(pred):
+        return _first(trace, lambda e: e["ev"] == "enum" and e["ok"] and pred(e))
+
+    def m_drop(t):
+        i = enum_with(lambda e: len(e["all"]) >= 3)
+        if i is None:
+            return None
+        t[i]["all"].pop(1)
+        return i
+
+    def m_extra(t):
+        i = enum_with(lambda e: len({d["p"] for d in e["all"] if d["k"] == "RN"}) >= 2)
+        if i is None:
+            return None
+        rn = [d for d in t[i]["all"] if d["k"] == "RN"]
+        x = dict(rn[0])
+        other = [d for d in rn if d["p"] != x["p"]][0]
+        x["a"] = x["b"] = other["a"]          # a node that the vehicle does not serve
+        if x in t[i]["all"]:
+            return None
+        t[i]["all"].append(x)
+        return i
+
+    def m_other(t):
+        cs = [k for k, e in enumerate(t) if e["ev"] == "cand"]
+        for a in cs:
+            for b in cs:
+                if t[a]["bi"] == t[b]["bi"] and t[a]["sw"] != t[b]["sw"] and t[a]["S"]["veh"] != t[b]["S"]["veh"]:
+                    t[a]["S"] = copy.deepcopy(t[b]["S"])
+                    return a
+        return None
+
+    def m_cost(t):
+        i = _first(t, lambda e: e["ev"] == "cand" and e["S"]["veh"])
+        t[i]["S"]["veh"][0]["c"] += 1
+        return i
+
+    r1 = run_corruptions("TraceSwap", trace, [
+        ("swap missing from neighbourhood", m_drop, ["P_C11_complete"]),
+        ("swap that does not apply offered", m_extra, ["P_C11_sound"]),
+        ("candidate of another swap", m_other, ["P_C11_swap"]),
+    ])
+    r2 = run_corruptions("TracePipe", trace, [("candidate tour cost + 1", m_cost, ["P_C11_caches"])])
+    return max(r1, r2)
+
+
 # --------------------------------------------------------------------------- network
 def net(prop, tier, seed):
     import gen
@@ -260,11 +312,21 @@ def walk(prop, tier, seed):
         t[i]["ha"] = "0000000000000000"
         return i
 
+    def m_fit(t):
+        # a fit_reassign that moved something is replayed as one that moved nothing: allowed by no greedy run
+        i = _first(t, lambda e: has_s(e) and e["op"] == "fit_reassign" and e["S"]["veh"] != t[e["pi"] - 1]["S"]["veh"]
+                   and e["S"]["dum"] == t[e["pi"] - 1]["S"]["dum"])
+        if i is None:
+            return None
+        t[i]["S"] = copy.deepcopy(t[t[i]["pi"] - 1]["S"])
+        return i
+
     cases = {
         "C09": [("tour cost + 1", m_cost, ["P_C09_tour"])],
         "C10": [("vehicle dropped from formation", m_form, ["P_C10_formations"])],
         "C13": [("other vehicle's end depot changed", m_tour, ["P_C13_effect"]),
-                ("input digest changed", m_digest, ["P_C13_input"])],
+                ("input digest changed", m_digest, ["P_C13_input"]),
+                ("fit_reassign result replaced by 'nothing fits'", m_fit, ["P_C13_fit_exact"])],
     }
     return run_corruptions("TraceSched", trace, cases[prop])
 
